@@ -171,6 +171,7 @@ def bin_case(draw, tier):
         shape = "linear"
     return {"w_nm": w, "grid": grid, "shape": shape, "lin": [a, b], "seed": k, "centres_nm": centres, "cgrid": cgrid,
             "ctype": ctype, "force_nm": force_nm,
+            "reused": draw(st.sampled_from([None, None, "set_value", "inplace", "set_wave_value", "resample"])),
             "method": method, "ends": draw(st.sampled_from(["symmetric", "inside"])),
             "preserve": draw(st.booleans()), "unit": draw(st.sampled_from(UNITS)),
             "bin_unit": draw(st.sampled_from(["same", "other"])), "other_unit": draw(st.sampled_from(UNITS))}
@@ -207,6 +208,33 @@ def bin_(case, ctx):
             "grid:" + case["grid"], "centre_type:" + (ctype if bunit == "nm" or not ctype.startswith("int") else "float"))
     dmin = float(np.min(np.diff(case["centres_nm"])))
     ctx.nontrivial_if(dmin < float(np.max(np.diff(w_nm))) or bunit != unit)
+    reused = case.get("reused")
+    if reused:
+        # the spectrum object has been binned and sampled before with other contents, and was then brought to
+        # (w, v) through its public attributes / editing methods
+        ctx.tag("reused:" + reused)
+        if reused == "resample":
+            s = Spectrum(np.linspace(w_nm[0], w_nm[-1], 7) * f, np.arange(7.0) + 1, waveunit=unit)
+        elif reused == "set_wave_value":
+            s = Spectrum((w_nm * 0.9 + 11.0) * f, 3.0 - v, waveunit=unit)
+        else:
+            s = Spectrum(w_nm * f, 3.0 - v[::-1], waveunit=unit)
+        with lentil_call("C15.bin", "earlier bin/sample of the same object"):
+            for mm in ("trapz", m):
+                if mm != "simps" or reused != "set_wave_value":
+                    s.bin(np.linspace(s.wave[1], s.wave[-2], 3), interp_method="trapz", waveunit=unit)
+            s.sample(np.asarray(s.wave)[:3], waveunit=unit)
+        with lentil_call("C15.bin", f"update of the spectrum ({reused})"):
+            if reused == "set_value":
+                s.value = v.copy()
+            elif reused == "inplace":
+                s.value[:] = v
+            elif reused == "set_wave_value":
+                s.wave = w_nm * f
+                s.value = v.copy()
+            else:
+                s.resample(w_nm * f, waveunit=unit)
+                s.value = v.copy()
     w0, v0, u0 = s.wave.copy(), s.value.copy(), s.waveunit
     with lentil_call("C15.bin", f"bin({m}, ends={ends}, preserve_power={pres}, spectrum in {unit}, centres in {bunit})"):
         out = np.asarray(s.bin(carg, interp_method=m, ends=ends, preserve_power=pres, waveunit=bunit), dtype=float)
